@@ -219,7 +219,9 @@ class SetEncoder(encoder.SequenceEncoder):
                 compsMap[id(component)] = namedType
                 comps.append((component, asn1Spec[idx]))
 
-        for comp, compType in sorted(comps, key=self._componentSortKey):
+        # X.690 (10.3) orders SET components by their (outermost) tag
+        for comp, compType in sorted(
+                comps, key=lambda x: self._componentSortKey(x)[-1:]):
             namedType = compsMap[id(comp)]
 
             if namedType:
